@@ -22,9 +22,10 @@ Oracles (all on the real objects):
 Graph algorithms are compared at 64*eps*n_terms*scale; "qr" (also accepted by the code path) only
 with unit-scale factors and at 1e-8*scale because it thresholds at 1e-10 relative.
 
-Signatures fired on the pinned tree (genuine, see final report): none for single-component
-quantum numbers; `builder:<name>:two-component-qn:dummy-qn-size` (t3ns / general_mctdh create
-BasisDummy with a one-component label, so BasisTree() raises for 2-component models).
+Signatures fired on the pinned tree: none for single-component quantum numbers;
+`builder:t3ns:two-component-qn:dummy-qn-size` and `builder:general_mctdh:two-component-qn:dummy-qn-size`
+(the virtual nodes got BasisDummy with a one-component label, so BasisTree() raised "Inconsistent
+quantum number size" for two-component models; repaired in /repo by commit 0b48864).
 Counted, not reported: lists that sum to the zero operator and empty lists (ValueError, same as Mpo;
 outside "partially cancelling"), complex factors (documented assertion "complex operator not
 supported yet"), `general_mctdh(tree_order=1)` (non-terminating recursion; never generated).
